@@ -249,8 +249,9 @@ func calculateDisplayColumn(originalLine string, originalPos, maxLen int) int {
 	if pos0 < 0 {
 		return 1
 	}
-	if pos0 >= len(originalLine) {
-		pos0 = len(originalLine) - 1
+	// The column one past the last character (the end of the line) is a valid position
+	if pos0 > len(originalLine) {
+		pos0 = len(originalLine)
 	}
 
 	// If position fits in first part
